@@ -140,3 +140,164 @@ def run_catalogue(prop: str, root: str, rc: int, evidence_dir, jobs: int = 16) -
               f"({len(summary['failures'])} catalogue entries): the verdict on /repo is not trusted")
         return 2
     return rc
+
+
+# ----------------------------------------------------------------------------------------------- seeded corpus
+def apply_patch(root: str, patch_text: str):
+    """Apply a unified diff to the files under `root` in memory -> {relative path: new text}, or None when a hunk's
+    context is not found (the tree moved on under the stored change).  Exact context match, nearest position."""
+    overlay = {}
+    files = []
+    cur = None
+    for line in patch_text.split("\n"):
+        if line.startswith("diff --git "):
+            cur = {"path": None, "hunks": [], "new_file": False}
+            files.append(cur)
+        elif cur is None:
+            continue
+        elif line.startswith("new file mode"):
+            cur["new_file"] = True
+        elif line.startswith("deleted file mode"):
+            return None
+        elif line.startswith("+++ "):
+            tgt = line[4:].strip()
+            cur["path"] = tgt[2:] if tgt.startswith("b/") else tgt
+        elif line.startswith("--- "):
+            continue
+        elif line.startswith("@@"):
+            start = int(line.split()[1].split(",")[0][1:])
+            cur["hunks"].append({"start": start, "lines": []})
+        elif cur["hunks"] and (line[:1] in (" ", "+", "-") or line == ""):
+            if line == "" and not cur["hunks"][-1]["lines"]:
+                continue
+            cur["hunks"][-1]["lines"].append(line if line else " ")
+    for f in files:
+        if not f["path"] or not f["hunks"]:
+            continue
+        path = os.path.join(root, f["path"])
+        if f["new_file"]:
+            src_lines = []
+        else:
+            try:
+                src_lines = open(path, encoding="utf-8").read().split("\n")
+            except FileNotFoundError:
+                return None
+        offset = 0
+        for h in f["hunks"]:
+            body = h["lines"]
+            while body and body[-1] == " " and (len(body) > 1) and False:
+                body = body[:-1]
+            old = [l[1:] for l in body if l[0] in " -"]
+            new = [l[1:] for l in body if l[0] in " +"]
+            # trailing artefact of splitting the patch text on newlines
+            while old and new and old[-1] == "" and new[-1] == "" and body[-1] == " ":
+                old, new, body = old[:-1], new[:-1], body[:-1]
+            want = max(0, h["start"] - 1 + offset)
+            pos = None
+            for d in range(0, len(src_lines) + 1):
+                for cand in (want - d, want + d):
+                    if 0 <= cand <= len(src_lines) - len(old) and src_lines[cand:cand + len(old)] == old:
+                        pos = cand
+                        break
+                if pos is not None:
+                    break
+            if pos is None:
+                return None
+            src_lines[pos:pos + len(old)] = new
+            offset += len(new) - len(old)
+        overlay[f["path"]] = "\n".join(src_lines)
+    return overlay
+
+
+def _run_seeded(args):
+    prop, root, name, kind, patch_text = args
+    overlay = apply_patch(root, patch_text)
+    if overlay is None:
+        return name, kind, "stale", "patch context not found in the current tree"
+    for fpath, text in overlay.items():
+        try:
+            compile(text, fpath, "exec")
+        except SyntaxError as e:
+            return name, kind, "stale", f"patched file does not compile: {e}"
+    try:
+        mod = importlib.import_module(f"rules.{prop.lower()}")
+        ctx = Ctx(prop, Index(root, overlay), "quick")
+        mod.run(ctx)
+    except AnalysisError as e:
+        return name, kind, "undecided", f"{e.rule} {e.site}: {e}"[:200]
+    except Exception as e:  # noqa: BLE001
+        return name, kind, "error", f"{type(e).__name__}: {e}"[:200]
+    known = load_known()
+    new = [f for f in ctx.findings if not match_known(f, known)]
+    fl = [f"vacuity {rid}" for rid, n in ctx.floors.items() if ctx.count(rid) < n]
+    und = [f"{u.rule} {u.site}: {u.reason}" for u in ctx.undecided] + fl
+    if new:
+        return name, kind, "reported", "; ".join(f"{f.rule} {f.func}" for f in new[:3])[:200]
+    if und:
+        return name, kind, "undecided", "; ".join(und[:2])[:200]
+    return name, kind, "silent", ""
+
+
+def run_seeded(prop: str, root: str, rc: int, evidence_dir, jobs: int = 16) -> int:
+    """Regression over the stored seeded changes (/verif/seeded): every stored defect of this property must be
+    reported by this property's check (those recorded as undecided-by-design must at least not pass silently), and
+    no stored behaviour-preserving change -- of any property -- may make this check report or lose its footing."""
+    sdir = os.path.join(VERIF, "seeded")
+    jobs_l = []
+    by_design = set()
+    for d in sorted(os.listdir(sdir)) if os.path.isdir(sdir) else []:
+        mp, pp = os.path.join(sdir, d, "meta.json"), os.path.join(sdir, d, "patch.diff")
+        if not (os.path.exists(mp) and os.path.exists(pp)):
+            continue
+        meta = json.load(open(mp))
+        kind = meta.get("kind", "defect")
+        owner = meta.get("property") or meta.get("breaks_property")
+        if kind == "defect" and owner != prop:
+            continue
+        if kind == "defect" and meta.get("undecided_by_design"):
+            by_design.add(d)
+        jobs_l.append((prop, root, d, kind, open(pp, encoding="utf-8").read()))
+    if not jobs_l:
+        return rc
+    t0 = time.time()
+    with ProcessPoolExecutor(max_workers=min(jobs, len(jobs_l))) as ex:
+        results = list(ex.map(_run_seeded, jobs_l))
+    summ = {"defects_total": 0, "defects_reported": 0, "defects_undecided_by_design": 0, "neutral_total": 0, "neutral_silent": 0,
+            "stale": [], "failures": []}
+    for name, kind, status, detail in results:
+        if status == "stale":
+            summ["stale"].append({"id": name, "detail": detail})
+            continue
+        if kind == "defect":
+            summ["defects_total"] += 1
+            if status == "reported":
+                summ["defects_reported"] += 1
+            elif status == "undecided" and name in by_design:
+                summ["defects_undecided_by_design"] += 1
+            else:
+                summ["failures"].append({"id": name, "kind": kind, "status": status, "detail": detail})
+        else:
+            summ["neutral_total"] += 1
+            if status == "silent":
+                summ["neutral_silent"] += 1
+            else:
+                summ["failures"].append({"id": name, "kind": kind, "status": status, "detail": detail})
+    summ["wall_s"] = round(time.time() - t0, 2)
+    print(f"[{prop}] seeded corpus: defects {summ['defects_reported']}/{summ['defects_total']} reported"
+          f" (+{summ['defects_undecided_by_design']} undecided by design), behaviour-preserving changes "
+          f"{summ['neutral_silent']}/{summ['neutral_total']} silent, {len(summ['stale'])} skipped (context gone), {summ['wall_s']} s")
+    for f in summ["failures"]:
+        print(f"  SEEDED-FAILURE {f['id']} ({f['kind']}): {f['status']} {f['detail']}")
+    for s_ in summ["stale"]:
+        print(f"  seeded skipped {s_['id']}: {s_['detail']}")
+    if evidence_dir:
+        p = os.path.join(evidence_dir, f"{prop}.json")
+        if os.path.exists(p):
+            ev = json.load(open(p))
+            ev["coverage"]["seeded_corpus"] = summ
+            json.dump(ev, open(p, "w"), indent=1, default=str)
+    if rc == 0 and summ["failures"]:
+        print(f"ANALYSIS-ERROR property={prop} rule=E11 site=seeded reason=checker regression on the seeded corpus "
+              f"({len(summ['failures'])} entries): the verdict on /repo is not trusted")
+        return 2
+    return rc
